@@ -793,6 +793,15 @@ func (c *Connection) write(ctx context.Context, msg Message) error {
 				for _, r := range s.incomingByID {
 					r.cancel(fmt.Errorf("%w: %v", ErrServerClosing, err))
 				}
+				// Retire the outgoing calls as well. The connection is being torn
+				// down and can no longer answer the peer, so waiting for the
+				// peer's responses can take for ever (for example when the peer's
+				// handler is itself waiting for us): the connection would never
+				// become idle and never close its transport.
+				for id, ac := range s.outgoingCalls {
+					ac.retire(&Response{ID: id, Error: err})
+				}
+				s.outgoingCalls = nil
 			}
 		})
 	}
